@@ -257,11 +257,15 @@ def wmwf_instance(D, F, variant='value', ref=0):
     def make(B):
         inp = rank1_inputs(B, D, F, need_eps_guard=(variant == 'mu0'))
         inp['mu'] = 0.0 if variant == 'mu0' else B.real('mu', (), lo=0.0, hi=100.0, dist=(0.0, 5.0))
+        if variant in ('csv', 'csv-per-bin'):
+            inp['u'] = B.real('u', (D,) if variant == 'csv' else (F, D))
         if variant == 'scale-both':
             inp['c'] = B.real('c', (), lo=0.0, lo_strict=True, dist=(0.5, 2.0))
         return inp
 
     def call(inp):
+        if variant in ('csv', 'csv-per-bin'):
+            return {'w': bf.get_wmwf_vector(inp['target'], inp['noise'], channel_selection_vector=inp['u'], distortion_weight=inp['mu'])}
         w = bf.get_wmwf_vector(inp['target'], inp['noise'], reference_channel=ref, distortion_weight=inp['mu'])
         if variant == 'value':
             return {'w': w}
@@ -282,6 +286,14 @@ def wmwf_instance(D, F, variant='value', ref=0):
                 for i in range(D):
                     # (Phi_xx + mu Phi_nn) w = Phi_xx e_ref
                     yield 'wiener-normal-equation[f=%d,%d]' % (f, i), sp.eq(lhs_x[i] + lhs_n[i] * inp['mu'], Px[i][ref])
+            elif variant in ('csv', 'csv-per-bin'):
+                # (Phi_xx + mu Phi_nn) w = Phi_xx u : the selection vector picks a weighted reference (a combination of columns)
+                Px, Pn = mat(inp['target'], (f,), D), mat(inp['noise'], (f,), D)
+                lhs_x, lhs_n = matvec(sp, Px, w), matvec(sp, Pn, w)
+                u = [cells(inp['u'])[(c_,) if variant == 'csv' else (f, c_)] for c_ in range(D)]
+                for i in range(D):
+                    yield 'wiener-normal-equation-selection-vector[f=%d,%d]' % (f, i), sp.eq(lhs_x[i] + lhs_n[i] * inp['mu'],
+                                                                                              sp.sum(Px[i][c_] * u[c_] for c_ in range(D)))
             else:
                 w2 = vecs(out['w2'], (f,), D)
                 tag = 'mu0-equals-souden' if variant == 'mu0' else 'joint-scale-invariant'
@@ -468,6 +480,8 @@ def instances(tier):
     for v in ('value', 'mu0', 'scale-both'):
         out.append(wmwf_instance(2, 1, v, ref=0))
     out.append(wmwf_instance(2, 2, 'value', ref=1))
+    out.append(wmwf_instance(2, 1, 'csv'))
+    out.append(wmwf_instance(2, 2, 'csv-per-bin'))
     if th:
         out.append(souden_instance(3, 1, 'value', ref=2))
         out.append(wmwf_instance(3, 1, 'value', ref=1))
